@@ -319,6 +319,79 @@ def identity_shapes():
     return res
 
 
+KEY_ATOMS = ["1", "0", "7", "None", "True", "'x'", "''", "2.5", "(3, 4)", "frozenset([5, 6])"]
+KEY_TEMPLATES = [   # (the entry's value object sits inside the entry's own KEY, the same key without that element)
+    ("{(a, 2): a}", "{(2,): a}"),
+    ("{(a,): a}", "{(): a}"),
+    ("{(2, a, 3): a}", "{(2, 3): a}"),
+    ("{frozenset([a, 'y']): a}", "{frozenset(['y']): a}"),
+    ("{((a,), 2): a}", "{((), 2): a}"),
+    ("{(2, (a, 'y')): a}", "{(2, ('y',)): a}"),
+    ("{(a, 2): a, 'z': 0}", "{(2,): a, 'z': 0}"),
+    ("{(a, 2): a, (2,): 'w'}", "{(2,): a, (2, 2, 2): 'w'}"),
+    ("[{(a, 2): a}]", "[{(2,): a}]"),
+    ("{'k': {(a, 2): a}}", "{'k': {(2,): a}}"),
+    ("[{(a, 2): a}, {(a,): a}]", "[{(2,): a}, {(): a}]"),
+    ("{(a, 2): [a]}", "{(2,): [a]}"),           # controls: the element is not the item itself
+    ("{(a, 2): 'other'}", "{(2,): 'other'}"),
+]
+
+
+def key_shapes():
+    """dicts whose KEY is a container (tuple / frozenset / nested tuple) that holds, BY IDENTITY, the very object
+    stored under that key (small ints, None, bools, interned strs are shared by CPython; floats / tuples / frozensets
+    through a lambda), each next to the dict whose key lacks exactly that element; at the root, inside a list, under
+    a str key.  Returns (expression, value) pairs."""
+    out, seen = [], set()
+    for a in KEY_ATOMS:
+        for t1, t2 in KEY_TEMPLATES:
+            for t in (t1, t2):
+                e = "(lambda a: %s)(%s)" % (t, a)
+                try:
+                    v = from_repr(e)
+                except TypeError:
+                    continue
+                k = canon_mode(v, ORDERED_MODE) + repr(base.has_sharing(v))
+                if k not in seen:
+                    seen.add(k)
+                    out.append((e, v))
+    return out
+
+
+HEADER_KEYS = base.HEADER + "\nFrom DD Require Import Hash.HashKeys."
+
+
+def oracle_keys(ctx):
+    """all pairs of the container-key shapes, three modes: equal hashes only for equal content; and the exact hash
+    string of every such dict (root / inside a list / under a str key) == the model, which hashes a key as a value"""
+    shapes = key_shapes()
+    pool = [v for _e, v in shapes]
+    for o in MODES3:
+        oracle_pool(ctx, pool, o, None, "sha256,container_keys")
+    cases = []
+    for e, v in shapes:
+        if values.contains_alias(list(base.all_atoms_deep(v))):
+            continue
+        wrap, d = "root", v
+        key = None
+        if isinstance(v, list) and len(v) == 1:
+            wrap, d = "list", v[0]
+        elif isinstance(v, dict) and list(v) == ["k"]:
+            wrap, d, key = "key", v["k"], "k"
+        if not isinstance(d, dict) or isinstance(v, list) and len(v) != 1:
+            continue
+        try:
+            kvs = "[%s]" % "; ".join("(%s, %s)" % (values.to_coq(k), values.to_coq(x)) for k, x in d.items())
+        except TypeError:        # a set of the universe holds scalars only: oracle only
+            ctx.count("keys:oracle_only")
+            continue
+        for o in MODES3:
+            fn = {"root": "run_kdict %s %s", "list": "run_kdict_in_list %s %s"}.get(wrap)
+            expr = (fn % (base.coq_opts(o), kvs)) if fn else "run_kdict_under_key %s %s %s" % (base.coq_opts(o), values.atom_to_coq(key), kvs)
+            cases.append((expr, impl_hash(v, o, hexhasher)[0], {"value": e, "opts": list(o), "check": "dict with container keys: key hashed as a value"}))
+    ctx.coq_cases("c07_keys", HEADER_KEYS, cases, shard=60, label="container_keys_exact_strings")
+
+
 def spells_digest(v):
     return any(len(s) > 20 for s in _strings_in(v, set()))
 
@@ -423,6 +496,8 @@ def corr_alike(ctx, pool, name):
     partition by the default SHA-256 hash == the partition by the decidable relation heqb computed in Coq; and the
     input-level guard norep (Coq) == 'no list/tuple holds two items with the same DeepHash' (implementation)"""
     vs = [v for v in pool if base.tag_safe_py(v) and not values.contains_alias(v) and not spells_digest(v)]
+    if not ctx.thorough:
+        vs = vs[:300]          # the hand-written near-collisions and identity shapes come first
     cases, guards = [], []
     body = ";\n ".join(values.to_coq(v) for v in vs)
     for o in MODES4:
@@ -711,7 +786,7 @@ def run(ctx):
         ctx.count("pool:alias" if values.contains_alias(v) else "pool:alias_free")
     # correspondence: exact strings on the pool, three modes
     base.corr_single(ctx, pool, MODES3, "c07_single", "exact_strings_pool")
-    base.corr_guards(ctx, pool, "c07")
+    base.corr_guards(ctx, pool, "c07", pure_stride=1 if ctx.thorough else 2)
     # correspondence: SHA-256 equality pattern == model pattern
     # (strings that spell a serialisation containing a SHA-256 digest collide under SHA-256 only: hasher-specific, left to the oracle)
     base.corr_pattern(ctx, [v for v in pool if not spells_digest(v)], MODES3, "c07_pattern")
@@ -719,6 +794,7 @@ def run(ctx):
     corr_alike(ctx, pool, "c07_alike")
     oracle_hashers(ctx, pool)
     oracle_other_leaves(ctx)
+    oracle_keys(ctx)
     # direct oracle: all pairs, three modes, both hashers
     for o in MODES3:
         oracle_pool(ctx, pool, o, None, "sha256")
